@@ -48,17 +48,18 @@ func genSPD(g *vlib.G) {
 						x := runDefault(c.body(&r), 3000000)
 						runs++
 						if x.Outcome != "ok" {
+							cls := c.failureClass(x.Outcome, r.lg)
 							if traceViol {
-								fmt.Fprintf(os.Stderr, "VIOL %s | %s | %s\n", outcomeClass(x.Outcome), x.Outcome, c.String())
+								fmt.Fprintf(os.Stderr, "VIOL %s | %s | %s\n", cls, x.Outcome, c.String())
 							}
-							t.SubViolation(" cfg="+c.String(), outcomeClass(x.Outcome), nil, "Minimize did not return normally: %s [%s]", x.Outcome, c.String())
+							report(t, " cfg="+c.String(), cls, nil, "Minimize did not return normally: %s [%s]", x.Outcome, c.String())
 							continue
 						}
 						if class, msg := c.check(&r); msg != "" {
 							if traceViol {
 								fmt.Fprintf(os.Stderr, "VIOL %s | %s | %s | %s\n", class, msg, c.String(), describe(&r))
 							}
-							t.SubViolation(" cfg="+c.String(), class, nil, "%s [%s] result: %s", msg, c.String(), describe(&r))
+							report(t, " cfg="+c.String(), class, nil, "%s [%s] result: %s", msg, c.String(), describe(&r))
 							continue
 						}
 						statuses[r.res.Status.String()]++
@@ -75,7 +76,7 @@ func genSPD(g *vlib.G) {
 							fmt.Fprintf(os.Stderr, "SPD %g | %s | %s\n", rel, c.String(), describe(&r))
 						}
 						if !(rel <= 1e-6) {
-							t.SubViolation(" cfg="+c.String(), "spd-not-converged", nil, "ended %.3g*(1+|x*|) away from the exact minimiser %v [%s] result: %s", rel, o.xstar, c.String(), describe(&r))
+							report(t, " cfg="+c.String(), "spd-not-converged", nil, "ended %.3g*(1+|x*|) away from the exact minimiser %v [%s] result: %s", rel, o.xstar, c.String(), describe(&r))
 						}
 					}
 				}
